@@ -156,7 +156,8 @@ class Dispatch:
                     continue
                 ta = self.te.eval(self.fn, call.args[0], cenv)
                 tb = self.te.eval(self.fn, call.args[1], cenv)
-                if not ta.classes or not tb.classes:
+                broad = {"Tensor", "ProjectiveTensor", "BoundTensor", "TensorCollection"}
+                if not ta.classes or not tb.classes or any(self.prog.classes[q].name in broad for q in ta.classes | tb.classes):
                     state["unknown"] = True
                     continue
                 for a in ta.classes:
